@@ -2,7 +2,8 @@
    change-range cache part.  Statements only. *)
 From YV Require Import Cache.ChangeStore Proofs.ChangeStoreProofs.
 
-(* After ANY sequence of EnsureChanges / ExpandRange / ReplaceOrInsert calls and
+(* After ANY sequence of EnsureChanges (succeeding, or with a fetcher that fails on any of its
+   calls: cop's CEnsureFail) / ExpandRange / ReplaceOrInsert calls and
    table growth that respects the caller obligations of mongo/client.go,
    EnsureChanges(f,t) followed by ChangesInRange(f,t) returns exactly the table
    rows of [f,t], in ascending ServerSeq order, and the fetcher was asked only
@@ -25,6 +26,14 @@ Theorem C20_no_refetch : forall fetch s f t s' asked,
     f <= q <= t /\ covered (ranges s) q = false /\ has_seq (items s) q = false.
 Proof. exact ensure_no_refetch. Qed.
 Print Assumptions C20_no_refetch.
+
+(* a failing fetch: only the ranges fetched before the failure are marked as fetched *)
+Theorem C20_failed_fetch_marks_only_fetched : forall tb s f t k s' asked,
+  ensure_failing (tfetch tb) s f t k = Some (s', asked, true) ->
+  asked = firstn (S k) (calc_missing s f t) /\
+  forall q, covered (ranges s') q = covered (ranges s) q || covered (firstn k (calc_missing s f t)) q.
+Proof. exact failed_fetch_marks_only_fetched. Qed.
+Print Assumptions C20_failed_fetch_marks_only_fetched.
 
 (* merging fetched ranges never changes which sequences count as fetched *)
 Theorem C20_merge_adjacent_exact : forall l q, covered (merge_adjacent l) q = covered l q.
